@@ -190,6 +190,12 @@ mod test;
 
 mod mio_source;
 
+// Verification facade (deterministic simulation harness, lives in /verif).
+// Compiled only with `--cfg rustdds_verif`; shipped builds never see it.
+#[cfg(rustdds_verif)]
+#[path = "/verif/facade/mod.rs"]
+pub mod verif;
+
 // Public modules
 pub mod dds; // this is public, but not advertised
 
